@@ -94,7 +94,7 @@ PROPS = {
                 theorems=reg("Voi.Props.C14", "Voi.Props.C14.Expand", "Voi.Props.C14.HashWF", "Voi.Props.C14.U2F", "Voi.Props.C14.Elligator", "Voi.Props.C14.Consts")),
     "C15": dict(level="proof", gens=["go2ir"], streams=[("E1", 2000), ("E2", 1500)], configs_quick=Q4, configs_thorough=T4,
                 theorems=reg("Voi.Props.C15", "Voi.Props.L0.Pred_ScMinimalVartime", "Voi.Props.ScMinimal", "Voi.Props.PredBridgeSc")),
-    "C16": dict(level="proof", streams=[("L1", 3000), ("G1", 600)],  # G1: both triple-base entry points (plain and precomputed key) configs_quick=Q4, configs_thorough=T4,
+    "C16": dict(level="proof", streams=[("L1", 3000), ("G1", 600)], configs_quick=Q4, configs_thorough=T4,
                 theorems={"Voi.Props.LatticeInv": LAT_INV, "Voi.Props.LatticeRefine": LAT_REF, **reg("Voi.Props.LatticeFuel")}),
     "C18": dict(level="proof", streams=[("C2", 3000), ("C1", 800),
                                         # the stateless API workload executed from 16 goroutines sharing all package-level state;
